@@ -97,6 +97,15 @@ def goneUsers (es : List Ev) : List Oid :=
 def loggedOn (es : List Ev) : List Oid :=
   es.filterMap (fun e => match e with | .tLogon o => some o | _ => none)
 
+/-- users that are connected at the end: logged on and neither destructed nor net-dead AFTERWARDS (a `dest` aimed
+    at a user that does not exist yet is a no-op in the driver) -/
+def liveUsers : List Oid → List Ev → List Oid
+  | live, [] => live
+  | live, .tLogon u :: es => liveUsers (if live.contains u then live else u :: live) es
+  | live, .xDest _ t :: es => liveUsers (live.erase t) es
+  | live, .tNetdead u :: es => liveUsers (live.erase u) es
+  | live, _ :: es => liveUsers live es
+
 def finalSlots (es : List Ev) : Option Nat :=
   es.findSome? (fun e => match e with | .slots n => some n | _ => none)
 
@@ -111,22 +120,37 @@ def isPrefix (a b : List String) : Bool := a.length ≤ b.length && b.take a.len
 def isSubseq : List String → List String → Bool
   | [], _ => true
   | _ :: _, [] => false
-  | a :: as, b :: bs => if a == b then isSubseq as bs else isSubseq (a :: as) bs
+  | a :: as, b :: bs => if b.startsWith a then isSubseq as bs else isSubseq (a :: as) bs   -- verb = start of the line
+
+/-- clause `crash`: the first crash / sanitizer line, if any -/
+def clauseCrash (es : List Ev) : List String :=
+  ((es.filter isCrash).map (fun e => match e with | .crash why => s!"crash {why}" | _ => "crash")).take 1
+
+/-- clause `report`: every uncaught error is reported to the master at once -/
+def clauseReport (es : List Ev) : List String :=
+  if reportOk es then [] else ["report uncaught error not reported to the master"]
+
+/-- clause `liveness` (cycle markers) -/
+def clauseCycles (es : List Ev) : List String :=
+  if cyclesOk 1 es then [] else ["liveness cycle-markers"]
+
+/-- clause `liveness` (the loop was left in an orderly way) -/
+def clauseExit (x : Expect) (es : List Ev) : List String :=
+  match hasExit es with
+  | none => ["liveness no-exit"]
+  | some true =>
+    -- stdin of the harness console is a pipe: losing the console user (destructed, or its connection rejected
+    -- by the master) is the documented shutdown request
+    if x.console && (!(destructedUsers es).isEmpty || (usersOfConnects es).contains none) then []
+    else ["liveness unexpected-shutdown"]
+  | some false => []
 
 def judgeEv (x : Expect) (es : List Ev) : List String :=
-  let crashes := (es.filter isCrash).map (fun e => match e with | .crash why => s!"crash {why}" | _ => "crash")
-  if !crashes.isEmpty then crashes.take 1 else
+  if !(clauseCrash es).isEmpty then clauseCrash es else
   let ex := hasExit es
-  let v1 := match ex with
-    | none => ["liveness no-exit"]
-    | some true =>
-      -- stdin of the harness console is a pipe: losing the console user (destructed, or its connection rejected
-      -- by the master) is the documented shutdown request
-      if x.console && (!(destructedUsers es).isEmpty || (usersOfConnects es).contains none) then []
-      else ["liveness unexpected-shutdown"]
-    | some false => []
-  let v2 := if cyclesOk 1 es then [] else ["liveness cycle-markers"]
-  let v3 := if reportOk es then [] else ["report uncaught error not reported to the master"]
+  let v1 := clauseExit x es
+  let v2 := clauseCycles es
+  let v3 := clauseReport es
   let shut := ex == some true
   let v4 := match finalHbs es with
     | none => ["heartbeats no-observation"]
@@ -158,7 +182,7 @@ def judgeEv (x : Expect) (es : List Ev) : List String :=
   let v7 := match finalSlots es with
     | none => []
     | some n =>
-      let live := ((loggedOn es).filter (fun u => !gone.contains u)).length
+      let live := (liveUsers [] es).length
       if n > live then [s!"leaked-conn slots={n} live-users={live}"] else []
   v1 ++ v2 ++ v3 ++ v4 ++ v5 ++ v6 ++ v7
 
